@@ -6,7 +6,7 @@ pub open spec fn mask_spec(k: nat) -> {I} {
 /// bit j of a machine word
 pub open spec fn wbit(w: {I}, j: nat) -> bool { (w >> (j as {I})) & 1 == 1 }
 /// bit i of a sequence of words, little-endian word order
-pub open spec fn bit(data: Seq<{I}>, i: int) -> bool { wbit(data[i / {I.bits}], (i % {I.bits}) as nat) }
+pub open spec fn bit_at(data: Seq<{I}>, i: int) -> bool { wbit(data[i / {I.bits}], (i % {I.bits}) as nat) }
 
 pub proof fn lemma_wbit_zero(j: {I})
     requires j < {I.bits}
